@@ -92,9 +92,12 @@ def run(ctx):
     if corp:
         explore(ctx, rep, corp, "corpus")
     r = ctx.sub_rng("gen")
-    n = ctx.n(400, 12000)
+    n = ctx.n(400, 30000)
     scs = [R.gen_scenario(r, PROF if i % 4 else PROF_MIX) for i in range(n)]
     broken = explore(ctx, rep, scs, "main")
+    if not ctx.quick:
+        broken = explore(ctx, rep, R.grid_scenarios(), "grid") or broken
+        rep.extra["small_scope_grid"] = "A<=3 x P<=2 x N in {None,1,2,3} x 13 stop instants x 4 five-message patterns"
     if (broken or any(not o["ok"] for o in rep.obligations)) and not rep.failures:
         r2 = ctx.sub_rng("search")
         explore(ctx, rep, [R.gen_scenario(r2, PROF) for _ in range(ctx.n(2000, 20000))], "search")
